@@ -1,7 +1,7 @@
 """C10 -- unreachable memory is recycled and the heap stays well-formed.
 
 (a) explicit-state exploration of the real allocator/collector (harness/heapmc.c): all alloc/link/clear/gc
-    histories to depth d over 9 object shapes and 3 root slots, de-duplicated on the exact heap tiling; the
+    histories to depth d over 10 object shapes and 3 root slots, de-duplicated on the exact heap tiling; the
     heap-walk checker runs after every transition and after every collection; live bytes after gc must equal
     the boot constant plus the model's reachable bytes; every final-frontier state is churned until its heap
     state repeats (lasso => bounded for ever).
@@ -13,7 +13,7 @@ from concurrent.futures import ThreadPoolExecutor
 from .. import common, build
 from ..common import Check, log
 
-HEAPMC_OPS = 37
+HEAPMC_OPS = 40
 
 
 def run_heapmc(variant, depth, first, lasso, heap):
@@ -39,7 +39,7 @@ def main(tier):
     chk = Check("C10", "model_checking", tier, quick_s=170, thorough_s=1500)
     chk.clean_replays()
     quick = tier == "quick"
-    chk.rule = ("(a) all histories over 37 operations (alloc of 9 shapes into 3 root slots, link, clear, gc) to the stated depth, "
+    chk.rule = ("(a) all histories over 40 operations (alloc of 10 shapes into 3 root slots, link, clear, gc) to the stated depth, "
                 "de-duplicated on the exact tiling of every heap segment + root/link graph; distinct_nontrivial = distinct heap states; "
                 "(b) heap checker at every collection of 10 GC workloads and 5 repository test files; (c) churn loops")
     chk.assumptions = ["default allocator configuration (no fixed-chunk heaps, no mmap)", "two independent 64-bit hashes identify a state key",
@@ -49,13 +49,15 @@ def main(tier):
     # ---------------- (a)
     plan = []
     if quick:
-        plan += [("asan", 4, f, 1, 48 * 1024) for f in range(HEAPMC_OPS)]
+        plan += [("asan", 4, f, 1, 64 * 1024) for f in range(HEAPMC_OPS)]
         plan += [("asan", 3, -1, 1, 256 * 1024)]
     else:
         build.build_variant("opt")
-        plan += [("asan", 5, f, 1, 48 * 1024) for f in range(HEAPMC_OPS)]
+        plan += [("asan", 5, f, 1, 64 * 1024) for f in range(HEAPMC_OPS)]
         plan += [("asan", 4, f, 1, 256 * 1024) for f in range(HEAPMC_OPS)]
-        plan += [("asan", 4, -1, 1, 8 * 1024)]
+        plan += [("asan", 4, -1, 1, 1024 * 1024)]
+    # heap sizes below SEXP_MINIMUM_HEAP_SIZE select the default size; every requested size must boot cleanly and stay well-formed
+    plan += [("asan", 2, -1, 0, hb) for hb in (1, 4096, 8192, 16384, 36 * 1024, 40 * 1024, 65535, 65536, 65537, 100000)]
     with ThreadPoolExecutor(common.NCPU) as ex:
         results = list(ex.map(lambda a: run_heapmc(*a), plan))
     for r in results:
@@ -74,7 +76,7 @@ def main(tier):
             chk.violation({"op": "heap-history", "history": hist, "msg": msg, "heap": r["heap"]},
                           "history [%s] (heap %d): %s" % (hist, r["heap"], msg), "heap=%d\nhistory=%s\n" % (r["heap"], hist), ext="hist")
     chk.nontrivial_n += states
-    chk.sample("alloc(0,b64) alloc(1,pair) link(1,0) clear(0) gc  -- 5 of the 37-operation alphabet")
+    chk.sample("alloc(0,b64) alloc(1,pair) link(1,0) clear(0) gc  -- 5 of the 40-operation alphabet")
     chk.sample({"heapmc_runs": len(plan), "depths": sorted(set(p[1] for p in plan)), "heaps": sorted(set(p[4] for p in plan))})
     log("C10 (a): %d states, %d transitions, %d lasso runs" % (states, transitions, lasso_runs))
     # ---------------- (b) checker at every collection of whole programs
@@ -82,6 +84,7 @@ def main(tier):
     progs = []
     for wl in ["micro1", "micro2", "lists", "strings", "bignum", "control", "evalmacro", "hash", "io", "threads"]:
         progs.append((wl, [os.path.join(gcdir, wl + ".scm")], [os.path.join(gcdir, wl + ".pre.scm")], None))
+    progs.append(("ephchain", [os.path.join(common.VERIF, "scheme", "heap", "ephchain.scm")], [], None))
     tests = os.path.join(common.REPO, "tests")
     for t in (["r7rs-tests", "division-tests", "syntax-tests"] if quick else ["r7rs-tests", "division-tests", "syntax-tests", "unicode-tests"]):
         progs.append((t, [os.path.join(tests, t + ".scm")], [], None))
@@ -95,9 +98,18 @@ def main(tier):
         return name, sched, r
 
     with ThreadPoolExecutor(common.NCPU) as ex:
-        for name, sched, r in ex.map(run_prog, [(p, s) for p in progs for s in scheds]):
+        # the repository's test files are long: in the quick tier they get a sparser schedule (longest first, for the pool)
+        work = [(p, s) for p in progs for s in scheds]
+        if quick:
+            work = [(p, ("nth:401" if p[0].endswith("-tests") else s)) for p, s in work]
+        work.sort(key=lambda a: 0 if a[0][0] == "r7rs-tests" else 1)
+        for name, sched, r in ex.map(run_prog, work):
             m = re.search(r"heapchecks=(\d+) heapcheck_fail=(\d+)(?: msg=(.*))?", r.out)
-            if r.rc != 0 or r.timed_out or not m or "AddressSanitizer" in r.out:
+            if r.timed_out:
+                chk.exhaustive = False
+                log("C10 (b): program %s under %s ran out of wall-clock time: undecided" % (name, sched))
+                continue
+            if r.rc != 0 or not m or "AddressSanitizer" in r.out:
                 chk.violation({"op": "program-crash", "program": name, "schedule": sched},
                               "program %s under %s ended abnormally (rc=%s): %s" % (name, sched, r.rc, r.out[-500:]))
                 continue
@@ -106,6 +118,8 @@ def main(tier):
             if int(m.group(2)):
                 chk.violation({"op": "heap-after-gc", "program": name, "schedule": sched, "msg": m.group(3)},
                               "program %s schedule %s: heap malformed after a collection: %s" % (name, sched, m.group(3)))
+            if name == "ephchain" and not re.search(r"^\(\(2 #f 0\) \(2 #t 0\) \(3 #f 0\) \(3 #t 0\) \(5 #f 0\) \(5 #t 0\) \(9 #f 0\) \(9 #t 0\)\)$", r.out, re.M):
+                chk.violation({"op": "ephemeron-chain", "schedule": sched}, "ephemeron chains under %s: an ephemeron with a reachable key lost its value or key: %s" % (sched, r.out[:300]))
             if name.endswith("-tests") and re.search(r"\b[1-9]\d* (fail|error)", r.out):
                 fl = [l for l in r.out.split("\n") if re.search(r"\b[1-9]\d* (fail|error)", l)]
                 chk.violation({"op": "test-fails-under-gc", "program": name, "schedule": sched}, "%s reports failures under %s: %s" % (name, sched, fl[:3]))
